@@ -302,3 +302,106 @@ pub proof fn lemma_poly_ids_same(a: Seq<v1::Monomial>, b: Seq<v1::Monomial>, n: 
     decreases n
 { if n > 0 { lemma_poly_ids_same(a, b, n - 1); } }
 '''
+
+
+# ---------------------------------------------------------------- macro-generated impls (macros.rs), Function level
+CONV = {'f64': 'fn_of_f64', 'Linear': 'fn_of_linear', 'Quadratic': 'fn_of_quadratic', 'Polynomial': 'fn_of_polynomial', 'Function': 'fn_of_function'}
+CONV_SPEC = '''// ---- upcasts into Function (the From impls of v1_ext/function.rs, verified as units) ----
+pub open spec fn fn_of_f64(c: F64) -> v1::Function { v1::Function { function: Some(v1::function::Function::Constant(c)) } }
+pub open spec fn fn_of_linear(l: v1::Linear) -> v1::Function { v1::Function { function: Some(v1::function::Function::Linear(l)) } }
+pub open spec fn fn_of_quadratic(q: v1::Quadratic) -> v1::Function { v1::Function { function: Some(v1::function::Function::Quadratic(q)) } }
+pub open spec fn fn_of_polynomial(p: v1::Polynomial) -> v1::Function { v1::Function { function: Some(v1::function::Function::Polynomial(p)) } }
+pub open spec fn fn_of_function(f: v1::Function) -> v1::Function { f }
+// exact negation of a typed operand (`self * -1.0` on a map-free leaf: no remainder)
+pub open spec fn neg_f64(n: F64, a: F64) -> bool { n@ == xr_neg(a@) }
+pub open spec fn neg_linear(n: v1::Linear, a: v1::Linear) -> bool { linear_ids(n).subset_of(linear_ids(a)) && (linear_fin(a) ==> linear_fin(n) && forall|m: Map<u64, F64>| #![trigger linear_val(n, m)] linear_val(n, m) == -linear_val(a, m)) }
+pub open spec fn neg_quadratic(n: v1::Quadratic, a: v1::Quadratic) -> bool { quadratic_ids(n).subset_of(quadratic_ids(a)) && (quadratic_fin(a) ==> quadratic_fin(n) && forall|m: Map<u64, F64>| #![trigger quadratic_val(n, m)] quadratic_val(n, m) == -quadratic_val(a, m)) }
+pub open spec fn neg_polynomial(n: v1::Polynomial, a: v1::Polynomial) -> bool { polynomial_ids(n).subset_of(polynomial_ids(a)) && (poly_fin(a.terms@) ==> poly_fin(n.terms@) && forall|m: Map<u64, F64>| #![trigger polynomial_val(n, m)] polynomial_val(n, m) == -polynomial_val(a, m)) }
+pub open spec fn neg_function(n: v1::Function, a: v1::Function) -> bool { is_neg(n, a) }
+// a - b is built as a + (-b): the difference up to the remainder of that one addition
+pub open spec fn is_diff_function(r: v1::Function, a: v1::Function, b: v1::Function) -> bool { exists|n: v1::Function| #![trigger is_sum(r, a, n)] neg_function(n, b) && is_sum(r, a, n) }
+pub open spec fn is_diff_f64(r: v1::Function, a: v1::Function, b: F64) -> bool { exists|n: F64| #![trigger fn_of_f64(n)] neg_f64(n, b) && is_sum(r, a, fn_of_f64(n)) }
+pub open spec fn is_diff_linear(r: v1::Function, a: v1::Function, b: v1::Linear) -> bool { exists|n: v1::Linear| #![trigger fn_of_linear(n)] neg_linear(n, b) && is_sum(r, a, fn_of_linear(n)) }
+pub open spec fn is_diff_quadratic(r: v1::Function, a: v1::Function, b: v1::Quadratic) -> bool { exists|n: v1::Quadratic| #![trigger fn_of_quadratic(n)] neg_quadratic(n, b) && is_sum(r, a, fn_of_quadratic(n)) }
+pub open spec fn is_diff_polynomial(r: v1::Function, a: v1::Function, b: v1::Polynomial) -> bool { exists|n: v1::Polynomial| #![trigger fn_of_polynomial(n)] neg_polynomial(n, b) && is_sum(r, a, fn_of_polynomial(n)) }
+pub proof fn lemma_mul_rem_const(a: v1::Function, c: F64, m: Map<u64, F64>)
+    ensures mul_rem(a, fn_of_f64(c), m) == 0real
+{}
+'''
+
+
+def _req_some(x):
+    return '%s.function is Some' % x
+
+
+def macro_units():
+    """One unit per macro instance of macros.rs in v1_ext/function.rs (and the Neg instances of linear/quadratic/polynomial.rs): the text is the mechanical
+    expansion of the macro definition with the instance's arguments."""
+    U = []
+    FN = 'v1_ext/function.rs'
+
+    def unit(macro, args, ln, file, fname, wrap_head, pre, header, proofs=(), rsubs=()):
+        t = core.expand_macro('macros.rs', macro, args)
+        return Unit('%s!(%s)' % (macro, ', '.join(args)), file, fname, text=(t, ln), anyhow=False, pre=pre, wrap=(wrap_head, '}'), header=header, proofs=list(proofs),
+                    rsubs=[(r'<(\w+)>::from\(', r'\1::from(', None)] + list(rsubs))
+
+    def si(tr, op, a, b, c, req):
+        return ('impl %sSpecImpl<%s> for %s { open spec fn obeys_%s_spec() -> bool { false } open spec fn %s_req(self, rhs: %s) -> bool { %s } '
+                'open spec fn %s_spec(self, rhs: %s) -> %s { arbitrary() } }\n' % (tr, T[b]['rust'], T[a]['rust'], op, op, T[b]['rust'], req, op, T[b]['rust'], T[c]['rust']))
+
+    for args, ln in core.macro_invocations(FN, 'impl_add_from'):
+        a, b = args
+        if a != 'Function' or b not in CONV:
+            raise core.LostAnchor('unexpected impl_add_from! instance %s' % args)
+        U.append(unit('impl_add_from', args, ln, FN, 'add', 'impl core::ops::Add<%s> for Function { type Output = Function;' % T[b]['rust'], si('Add', 'add', a, b, 'Function', _req_some('self')),
+                      'fn add(self, rhs: %s) -> (r: Function)\n        ensures is_sum(r, self, %s(rhs)),' % (T[b]['rust'], CONV[b])))
+    for args, ln in core.macro_invocations(FN, 'impl_add_inverse'):
+        a, b = args
+        if b != 'Function' or a not in CONV:
+            raise core.LostAnchor('unexpected impl_add_inverse! instance %s' % args)
+        U.append(unit('impl_add_inverse', args, ln, FN, 'add', 'impl core::ops::Add<Function> for %s { type Output = Function;' % T[a]['rust'], si('Add', 'add', a, b, 'Function', _req_some('rhs')),
+                      'fn add(self, rhs: Function) -> (r: Function)\n        // commuted: the sum is computed as rhs + self\n        ensures is_sum(r, rhs, %s(self)),' % CONV[a]))
+    for args, ln in core.macro_invocations(FN, 'impl_mul_from'):
+        a, b, c = args
+        if a != 'Function' or c != 'Function' or b not in CONV:
+            raise core.LostAnchor('unexpected impl_mul_from! instance %s' % args)
+        U.append(unit('impl_mul_from', args, ln, FN, 'mul', 'impl core::ops::Mul<%s> for Function { type Output = Function;' % T[b]['rust'], si('Mul', 'mul', a, b, 'Function', _req_some('self')),
+                      'fn mul(self, rhs: %s) -> (r: Function)\n        ensures is_prod(r, self, %s(rhs)),' % (T[b]['rust'], CONV[b])))
+    for args, ln in core.macro_invocations(FN, 'impl_mul_inverse'):
+        a, b = args
+        if b != 'Function' or a not in CONV:
+            raise core.LostAnchor('unexpected impl_mul_inverse! instance %s' % args)
+        U.append(unit('impl_mul_inverse', args, ln, FN, 'mul', 'impl core::ops::Mul<Function> for %s { type Output = Function;' % T[a]['rust'], si('Mul', 'mul', a, b, 'Function', _req_some('rhs')),
+                      'fn mul(self, rhs: Function) -> (r: Function)\n        ensures is_prod(r, rhs, %s(self)),' % CONV[a]))
+    # Neg: `self * -1.0`
+    NEGP = {'Function': ('is_neg(r, self)', 'self.function is Some'), 'Linear': ('neg_linear(r, self)', 'true'), 'Quadratic': ('neg_quadratic(r, self)', 'true'), 'Polynomial': ('neg_polynomial(r, self)', 'true')}
+    for file, ty in ((FN, 'Function'), ('linear.rs', 'Linear'), ('quadratic.rs', 'Quadratic'), ('polynomial.rs', 'Polynomial')):
+        inv = core.macro_invocations(file, 'impl_neg_by_mul')
+        if [a for a, _ in inv] != [[ty]]:
+            raise core.LostAnchor('unexpected impl_neg_by_mul! instances in %s: %s' % (file, inv))
+        ln = inv[0][1]
+        t = core.expand_macro('macros.rs', 'impl_neg_by_mul', [ty])
+        # the macro defines two impls: by value and by reference
+        parts = t.split('impl ::std::ops::Neg for &')
+        if len(parts) != 2:
+            raise core.LostAnchor('impl_neg_by_mul! no longer defines exactly the by-value and the by-reference impl')
+        post, req = NEGP[ty]
+        proof = ''
+        negone = ' proof { assert(xr_neg(XR::Fin(10real / 10real)) == XR::Fin(-1real)); }\n'
+        if ty == 'Function':
+            proof = ' proof { assert forall|c: F64, m: Map<u64, F64>| #![trigger mul_rem(self, fn_of_f64(c), m)] mul_rem(self, fn_of_f64(c), m) == 0real by { lemma_mul_rem_const(self, c, m); } }\n'
+        nsi = 'impl NegSpecImpl for %s { open spec fn obeys_neg_spec() -> bool { false } open spec fn neg_req(self) -> bool { %s } open spec fn neg_spec(self) -> %s { arbitrary() } }\n' % (ty, req, ty)
+        U.append(Unit('impl_neg_by_mul!(%s) [by value]' % ty, file, 'neg', text=(parts[0], ln), anyhow=False, pre=nsi, wrap=('impl core::ops::Neg for %s { type Output = %s;' % (ty, ty), '}'),
+                      header='fn neg(self) -> (r: %s)\n        ensures %s,' % (ty, post), proofs=[('start', negone + proof)]))
+        nsi2 = "impl<'a> NegSpecImpl for &'a %s { open spec fn obeys_neg_spec() -> bool { false } open spec fn neg_req(self) -> bool { %s } open spec fn neg_spec(self) -> %s { arbitrary() } }\n" % (ty, req, ty)
+        U.append(Unit('impl_neg_by_mul!(%s) [by reference]' % ty, file, 'neg', text=('impl ::std::ops::Neg for &' + parts[1], ln), anyhow=False, pre=nsi2,
+                      wrap=("impl<'a> core::ops::Neg for &'a %s { type Output = %s;" % (ty, ty), '}'),
+                      header='fn neg(self) -> (r: %s)\n        ensures %s,' % (ty, post.replace('self', '*self')), proofs=[('start', negone + proof.replace('(self,', '(*self,'))]))
+    for args, ln in core.macro_invocations(FN, 'impl_sub_by_neg_add'):
+        a, b = args
+        if a != 'Function' or b not in CONV:
+            raise core.LostAnchor('unexpected impl_sub_by_neg_add! instance %s' % args)
+        U.append(unit('impl_sub_by_neg_add', args, ln, FN, 'sub', 'impl core::ops::Sub<%s> for Function { type Output = Function;' % T[b]['rust'],
+                      si('Sub', 'sub', a, b, 'Function', _req_some('self') + (' && rhs.function is Some' if b == 'Function' else '')),
+                      'fn sub(self, rhs: %s) -> (r: Function)\n        ensures is_diff_%s(r, self, rhs),' % (T[b]['rust'], low(b))))
+    return U
